@@ -68,7 +68,14 @@ LEAF_SCRIPTS: list[list[Any]] = [["OP_1"], ["OP_2", "OP_DROP", "OP_1"], ["OP_1",
 
 def _leaf(ch: Any, pool: list[Any]) -> Any:
     """A leaf: an anyone-can-spend script, a key check, or a repeat of an earlier leaf."""
-    k = ch.draw(6, "leaf.kind")
+    k = ch.draw(7, "leaf.kind")
+    if k == 6:
+        # a long leaf: a pushed blob dropped again, so that the serialized script is 252..256 octets (either side of
+        # the one-octet CompactSize length in the leaf hash) or past the largest push
+        blob = ch.nbytes(ch.pick([248, 249, 249, 250, 251, 252, 520], "leaf.blob"), "leaf.blob.octets")
+        leaf = (0xC0, [blob.hex(), "OP_DROP", "OP_1"])
+        pool.append(leaf)
+        return leaf
     if k == 5 and pool:
         return pool[ch.draw(len(pool), "leaf.repeat")]
     version = 0xC0 if ch.draw(5, "leaf.version") else 0xC0 + 2 * (1 + ch.draw(8, "leaf.otherversion"))
